@@ -142,6 +142,10 @@ def evolve_oracle(args):
             terms.append((float(rng.uniform(-1, 1)), f"Z{i}"))
         for i in range(L - 1):
             terms.append((float(rng.uniform(-1, 1)), f"Z{i} Z{i + 1}"))
+        if args.get("hseed", 1) % 2:  # not real symmetric: a Y field and a Dzyaloshinskii-Moriya pair
+            terms.append((float(rng.uniform(-1, 1)), f"Y{int(rng.integers(0, L))}"))
+            c = float(rng.uniform(-1, 1))
+            terms += [(c, "X0 Y1"), (-c, "Y0 X1")]
         H = MPO()
         H.from_pauli_sum(terms=terms, length=L)
         hd = np.zeros((2**L, 2**L), dtype=complex)
@@ -220,6 +224,14 @@ def liouvillian_correspondence(ctx):
             procs.insert(zero_at, {"name": str(rng.choice(names1)), "sites": [int(rng.integers(0, L))], "strength": 0.0})
         J, g = float(rng.uniform(0.4, 1.2)), float(rng.uniform(0.3, 0.9))
         H, hd = MPO.ising(L, J, g), dense.ising(L, J, g)
+        if k % 3:  # Hamiltonians that are not real symmetric: fields and couplings with Y factors
+            from drivers.C05 import pauli_terms
+
+            terms, hd = pauli_terms(L, rng)
+            terms.append((float(rng.uniform(-1, 1)), "Y0"))
+            hd = hd + terms[-1][0] * dense.op_on(L, {0: dense.PAULI["Y"]})
+            H = MPO()
+            H.from_pauli_sum(terms=terms, length=L)
         par = AnalogSimParams([Observable("z", 0)], elapsed_time=0.1, dt=0.1, solver="Lindblad", show_progress=False)
         seen = {}
         saved = Lb.solve_ivp
